@@ -122,6 +122,24 @@ def run(ctx) -> None:
     ok = any(c.args[0].value in ("stage([0-9]+)", r"stage(\d+)", "stage([0-9]+)$") for c in res)
     ctx.ob("C09.R1-separator-agreement", res[0] if res else ppr, ok, "parser recognises 'stage<digits>'" if ok else
            "the stage prefix pattern differs from the printed 'stage%d'", construct="stage prefix regex")
+    # ... and the pattern must cover the WHOLE text in front of the '.': fullmatch, or match with an end anchor
+    pat_names = {t.id for n in source.walk_own(ppr) if isinstance(n, ast.Assign) and isinstance(n.value, ast.Call) and call_name(n.value) == "re.compile"
+                 for t in n.targets if isinstance(t, ast.Name)}
+    uses = [c for c in source.calls_in(ppr) if isinstance(c.func, ast.Attribute) and c.func.attr in ("match", "fullmatch", "search")
+            and isinstance(c.func.value, ast.Name) and c.func.value.id in pat_names]
+    ctx.floor("C09.R1-separator-agreement", len(uses), 1, "applications of the stage-prefix pattern in ParseProducerReference")
+    for u in uses:
+        pats = [n.value.args[0].value for n in source.walk_own(ppr) if isinstance(n, ast.Assign) and isinstance(n.value, ast.Call)
+                and call_name(n.value) == "re.compile" and any(isinstance(t, ast.Name) and t.id == u.func.value.id for t in n.targets)
+                and n.value.args and isinstance(n.value.args[0], ast.Constant)]
+        end_anchored = bool(pats) and all(p_.endswith("$") or p_.endswith("\\Z") for p_ in pats)
+        start_anchored = bool(pats) and all(p_.startswith("^") or p_.startswith("\\A") for p_ in pats)
+        ok = u.func.attr == "fullmatch" or (u.func.attr == "match" and end_anchored) or (u.func.attr == "search" and end_anchored and start_anchored)
+        ctx.ob("C09.R1-separator-agreement", u, ok,
+               "the stage-prefix pattern has to match the whole text in front of the '.'" if ok else
+               "the stage-prefix pattern is applied with %s() and without an end anchor: it accepts any text that merely starts with "
+               "'stage<digits>', so the relative producer 'stage2-prep.v1' parses as component 'v1' of stage 2 and prints back as "
+               "'stage2.v1' - another producer" % u.func.attr, construct="stage prefix pattern applied to the whole prefix")
 
     # ---------------- R2 -------------------------------------------------------------------------------
     atoms = ["in_reserved", "has_index", "has_sep", "is_var"]
